@@ -562,6 +562,274 @@ fn gen_clausemix_query(r: &mut Rng, t0: &Tbl, t1: &Tbl) -> Query {
     Query { shape, sql, lite, logical: plan, ordered, limit, scalar_sub: false, order_keys: None }
 }
 
+// ---------------------------------------------------------------------------------------------
+// three-valued logic: conditions that are NULL for some rows / pairs, in every place a condition is read
+// ---------------------------------------------------------------------------------------------
+
+fn e_not(e: &E) -> E {
+    E { sql: format!("NOT ({})", e.sql), lite: format!("NOT ({})", e.lite), plan: format!("(not {})", e.plan) }
+}
+
+fn e_bin(op: &str, pop: &str, a: &E, b: &E) -> E {
+    E { sql: format!("({} {op} {})", a.sql, b.sql), lite: format!("({} {op} {})", a.lite, b.lite), plan: format!("({pop} {} {})", a.plan, b.plan) }
+}
+
+fn e_col(c: &Col) -> E {
+    E { sql: c.sql.clone(), lite: c.sql.clone(), plan: c.plan.clone() }
+}
+
+/// a nullable operand: a BOOLEAN column used bare, a comparison with a constant / another column, `IS NULL`
+fn tvl_simple(r: &mut Rng, cols: &[Col]) -> E {
+    let ints: Vec<&Col> = cols.iter().filter(|c| matches!(c.ty, Ty::I32 | Ty::I64)).collect();
+    let strs: Vec<&Col> = cols.iter().filter(|c| c.ty == Ty::Str).collect();
+    let bools: Vec<&Col> = cols.iter().filter(|c| c.ty == Ty::Bool).collect();
+    match r.below(7) {
+        0 | 1 if !bools.is_empty() => e_col(*r.pick(&bools)),
+        2 if !strs.is_empty() => {
+            let c = *r.pick(&strs);
+            let v = *r.pick(&["a", "b", ""]);
+            let op = *r.pick(&["=", "<>", ">"]);
+            E { sql: format!("{} {op} '{v}'", c.sql), lite: format!("{} {op} '{v}'", c.sql), plan: format!("({op} {} '{v}')", c.plan) }
+        }
+        3 if ints.len() >= 2 => {
+            let a = *r.pick(&ints);
+            let mut b = *r.pick(&ints);
+            while b.plan == a.plan {
+                b = *r.pick(&ints);
+            }
+            let op = *r.pick(&["=", "<>", "<", ">="]);
+            E { sql: format!("{} {op} {}", a.sql, b.sql), lite: format!("{} {op} {}", a.sql, b.sql), plan: format!("({op} {} {})", a.plan, b.plan) }
+        }
+        _ => {
+            let c = *r.pick(&ints);
+            let v = r.range(-1, 3);
+            let op = *r.pick(&["=", "<>", "<", ">", "<=", ">="]);
+            E { sql: format!("{} {op} {v}", c.sql), lite: format!("{} {op} {v}", c.sql), plan: format!("({op} {} {v})", c.plan) }
+        }
+    }
+}
+
+/// `probe [NOT] IN (members)`: INT probe (may be NULL), INT constants and — for NULL members — INT columns of
+/// `member_cols` (the dialect wants one type for probe and members and has no NULL literal in a list)
+fn tvl_in(r: &mut Rng, probe_cols: &[Col], member_cols: &[Col], negated: bool, force_col: bool) -> E {
+    let probes: Vec<&Col> = probe_cols.iter().filter(|c| c.ty == Ty::I32).collect();
+    let members: Vec<&Col> = member_cols.iter().filter(|c| c.ty == Ty::I32).collect();
+    let p = *r.pick(&probes);
+    let mut sqls: Vec<String> = vec![];
+    let mut plans: Vec<String> = vec![];
+    let others: Vec<&&Col> = members.iter().filter(|c| c.plan != p.plan).collect();
+    if !others.is_empty() && (force_col || r.chance(1, 2)) {
+        let m = **r.pick(&others);
+        sqls.push(m.sql.clone());
+        plans.push(m.plan.clone());
+    }
+    let nconst = if sqls.is_empty() { r.range(1, 3) } else { r.range(0, 2) };
+    for _ in 0..nconst {
+        let v = r.range(0, 3).to_string();
+        if !plans.contains(&v) {
+            let at = r.below(sqls.len() as u64 + 1) as usize;
+            sqls.insert(at, v.clone());
+            plans.insert(at, v);
+        }
+    }
+    let e = E {
+        sql: format!("{} {}IN ({})", p.sql, if negated { "NOT " } else { "" }, sqls.join(", ")),
+        lite: format!("{} {}IN ({})", p.sql, if negated { "NOT " } else { "" }, sqls.join(", ")),
+        plan: format!("(in {} (list {}))", p.plan, plans.join(" ")),
+    };
+    if negated { E { plan: format!("(not {})", e.plan), ..e } } else { e }
+}
+
+/// two different operands
+fn tvl_pair(r: &mut Rng, cols: &[Col]) -> (E, E) {
+    let p = tvl_simple(r, cols);
+    let mut q = tvl_simple(r, cols);
+    for _ in 0..8 {
+        if q.plan != p.plan {
+            break;
+        }
+        q = tvl_simple(r, cols);
+    }
+    (p, q)
+}
+
+/// a condition over ONE set of columns whose NOT / IN reaches the kernels (the optimizer flips a NOT over a
+/// bare comparison away): returns the expression and a tag for the shape
+fn tvl_atom(r: &mut Rng, cols: &[Col]) -> (E, &'static str) {
+    let bools: Vec<&Col> = cols.iter().filter(|c| c.ty == Ty::Bool).collect();
+    match r.below(9) {
+        0 if !bools.is_empty() => (e_col(*r.pick(&bools)), "bool"),
+        1 | 2 if !bools.is_empty() => (e_not(&e_col(*r.pick(&bools))), "not-bool"),
+        3 | 4 => (tvl_in(r, cols, cols, true, false), "not-in-list"),
+        5 => (tvl_in(r, cols, cols, false, true), "in-list"),
+        6 | 7 => {
+            let (p, q) = tvl_pair(r, cols);
+            (e_not(&e_bin("AND", "and", &p, &q)), "not-and")
+        }
+        _ => {
+            let (p, q) = tvl_pair(r, cols);
+            (e_not(&e_bin("OR", "or", &p, &q)), "not-or")
+        }
+    }
+}
+
+/// a condition that needs BOTH sides of a join (it stays in the join / semi-join condition)
+fn tvl_cross(r: &mut Rng, cols0: &[Col], cols1: &[Col]) -> (E, &'static str) {
+    let cross_cmp = |r: &mut Rng| -> E {
+        if r.chance(1, 5) {
+            let (a, b) = (cols0.iter().find(|c| c.ty == Ty::Str).unwrap(), cols1.iter().find(|c| c.ty == Ty::Str).unwrap());
+            let op = *r.pick(&["=", "<>"]);
+            return E { sql: format!("{} {op} {}", a.sql, b.sql), lite: format!("{} {op} {}", a.sql, b.sql), plan: format!("({op} {} {})", a.plan, b.plan) };
+        }
+        let i0: Vec<&Col> = cols0.iter().filter(|c| matches!(c.ty, Ty::I32 | Ty::I64)).collect();
+        let i1: Vec<&Col> = cols1.iter().filter(|c| matches!(c.ty, Ty::I32 | Ty::I64)).collect();
+        let (a, b) = (*r.pick(&i0), *r.pick(&i1));
+        let op = *r.pick(&["<", ">=", "<>", "=", ">"]);
+        E { sql: format!("{} {op} {}", a.sql, b.sql), lite: format!("{} {op} {}", a.sql, b.sql), plan: format!("({op} {} {})", a.plan, b.plan) }
+    };
+    let bools: Vec<&Col> = cols0.iter().chain(cols1.iter()).filter(|c| c.ty == Ty::Bool).collect();
+    match r.below(9) {
+        0 | 1 => {
+            let p = if !bools.is_empty() && r.chance(2, 3) { e_col(*r.pick(&bools)) } else { tvl_simple(r, cols0) };
+            let c = cross_cmp(r);
+            (e_not(&e_bin("AND", "and", &p, &c)), "not-and")
+        }
+        2 => {
+            let q = tvl_simple(r, cols1);
+            let c = cross_cmp(r);
+            (e_not(&e_bin("OR", "or", &c, &q)), "not-or")
+        }
+        3 | 4 => {
+            if r.chance(1, 2) { (tvl_in(r, cols0, cols1, true, true), "not-in-list") } else { (tvl_in(r, cols1, cols0, true, true), "not-in-list") }
+        }
+        5 => (tvl_in(r, cols0, cols1, false, true), "in-list"),
+        6 => {
+            let c1 = cross_cmp(r);
+            let mut c2 = cross_cmp(r);
+            for _ in 0..8 {
+                if c2.plan != c1.plan {
+                    break;
+                }
+                c2 = cross_cmp(r);
+            }
+            (e_not(&e_bin("AND", "and", &c1, &c2)), "not-and")
+        }
+        7 if !bools.is_empty() => {
+            let c = cross_cmp(r);
+            (e_bin("AND", "and", &e_col(*r.pick(&bools)), &c), "bool-and")
+        }
+        _ => {
+            let c = cross_cmp(r);
+            let b = if bools.is_empty() { tvl_simple(r, cols0) } else { e_col(*r.pick(&bools)) };
+            (e_bin("AND", "and", &e_not(&e_bin("OR", "or", &b, &tvl_simple(r, cols1))), &c), "not-or-and")
+        }
+    }
+}
+
+/// Three-valued logic where a condition is READ: WHERE, ON of a nested-loop join (non-equi), ON residual, the
+/// condition of [NOT] EXISTS (hash semi join with residual / nested-loop semi join), HAVING.  Conditions: a
+/// nullable BOOLEAN column bare and under NOT, `[NOT] IN (list)` with NULL probes and NULL members, `NOT (p AND q)`,
+/// `NOT (p OR q)` over nullable operands — at top level and under AND (where UNKNOWN must drop the row).
+fn gen_tvl_query(r: &mut Rng, t0: &Tbl, t1: &Tbl) -> Query {
+    let cols0: Vec<Col> = t0.cols.iter().enumerate().map(|(i, c)| Col { sql: c.0.into(), plan: format!("$0.{i}"), ty: c.1 }).collect();
+    let cols1: Vec<Col> = t1.cols.iter().enumerate().map(|(i, c)| Col { sql: c.0.into(), plan: format!("$1.{i}"), ty: c.1 }).collect();
+    let all: Vec<Col> = cols0.iter().chain(cols1.iter()).cloned().collect();
+    let (scan0, scan1) = (scan_plan(0, cols0.len()), scan_plan(1, cols1.len()));
+    let mut shape = String::from("tvl");
+    let form = r.below(13);
+    // (FROM … [WHERE …] in SQL, its plan, the columns the select list may use)
+    let (from_sql, from_plan, out_cols): (String, String, Vec<Col>);
+    let conj = |r: &mut Rng, cols: &[Col], shape: &mut String| -> E {
+        // an atom, alone or under AND with a second condition (UNKNOWN AND TRUE = UNKNOWN: the row is dropped)
+        let (a, tag) = tvl_atom(r, cols);
+        *shape += &format!(" {tag}");
+        match r.below(4) {
+            0 => {
+                let (b, tag2) = tvl_atom(r, cols);
+                *shape += &format!("+and+{tag2}");
+                e_bin("AND", "and", &a, &b)
+            }
+            1 => {
+                *shape += "+and";
+                e_bin("AND", "and", &a, &tvl_simple(r, cols))
+            }
+            _ => a,
+        }
+    };
+    match form {
+        0..=2 => {
+            shape += " where";
+            let p = conj(r, &cols0, &mut shape);
+            from_sql = format!("{} WHERE {}", t0.name, p.sql);
+            from_plan = format!("(filter {} {scan0})", p.plan);
+            out_cols = cols0.clone();
+        }
+        3 => {
+            shape += " join:inner where";
+            let p = conj(r, &all, &mut shape);
+            from_sql = format!("{} JOIN {} ON a = x WHERE {}", t0.name, t1.name, p.sql);
+            from_plan = format!("(filter {} (join inner (= $0.0 $1.0) {scan0} {scan1}))", p.plan);
+            out_cols = all.clone();
+        }
+        4..=6 => {
+            let (jt_sql, jt_plan) = *r.pick(&[("JOIN", "inner"), ("JOIN", "inner"), ("LEFT JOIN", "left_outer"), ("LEFT JOIN", "left_outer"), ("RIGHT JOIN", "right_outer"), ("FULL JOIN", "full_outer")]);
+            let (p, tag) = tvl_cross(r, &cols0, &cols1);
+            shape += &format!(" join:{jt_plan} on-non-equi {tag}");
+            from_sql = format!("{} {jt_sql} {} ON {}", t0.name, t1.name, p.sql);
+            from_plan = format!("(join {jt_plan} {} {scan0} {scan1})", p.plan);
+            out_cols = all.clone();
+        }
+        7 => {
+            let (p, tag) = tvl_cross(r, &cols0, &cols1);
+            shape += &format!(" join:inner on-residual {tag}");
+            from_sql = format!("{} JOIN {} ON a = x AND {}", t0.name, t1.name, p.sql);
+            from_plan = format!("(join inner (and (= $0.0 $1.0) {}) {scan0} {scan1})", p.plan);
+            out_cols = all.clone();
+        }
+        8..=10 => {
+            let anti = r.chance(1, 2);
+            let (p, tag) = tvl_cross(r, &cols0, &cols1);
+            let eq = r.chance(1, 2);
+            shape += &format!(" {}{} {tag}", if anti { "not-exists" } else { "exists" }, if eq { "/eq+cond" } else { "/cond" });
+            let (c_sql, c_plan) = if eq { (format!("x = a AND {}", p.sql), format!("(and (= $1.0 $0.0) {})", p.plan)) } else { (p.sql.clone(), p.plan.clone()) };
+            from_sql = format!("{} WHERE {}EXISTS (SELECT * FROM {} WHERE {c_sql})", t0.name, if anti { "NOT " } else { "" }, t1.name);
+            from_plan = format!("(join {} {c_plan} {scan0} {scan1})", if anti { "anti" } else { "semi" });
+            out_cols = cols0.clone();
+        }
+        _ => {
+            // HAVING over a GROUP BY key (a nullable BOOLEAN or INT key) and the group's count
+            let k = if r.chance(1, 2) { cols0[4].clone() } else { r.pick(&[cols0[0].clone(), cols0[2].clone()]).clone() };
+            let kcols = vec![k.clone()];
+            let cnt = E { sql: "count(*)".into(), lite: "count(*)".into(), plan: "rowcount".into() };
+            let p = if k.ty == Ty::Bool {
+                match r.below(3) {
+                    0 => e_col(&k),
+                    1 => e_not(&e_col(&k)),
+                    _ => e_not(&e_bin("AND", "and", &e_col(&k), &E { sql: "count(*) > 1".into(), lite: "count(*) > 1".into(), plan: "(> rowcount 1)".into() })),
+                }
+            } else {
+                match r.below(3) {
+                    0 => tvl_in(r, &kcols, &kcols, true, false),
+                    1 => e_not(&e_bin("AND", "and", &E { sql: "count(*) > 1".into(), lite: "count(*) > 1".into(), plan: "(> rowcount 1)".into() }, &tvl_simple(r, &kcols))),
+                    _ => e_not(&e_bin("OR", "or", &tvl_simple(r, &kcols), &E { sql: "count(*) > 2".into(), lite: "count(*) > 2".into(), plan: "(> rowcount 2)".into() })),
+                }
+            };
+            let _ = cnt;
+            shape += &format!(" group-by having {}", if k.ty == Ty::Bool { "bool-key" } else { "int-key" });
+            let sql = format!("SELECT {} AS o0, count(*) AS o1 FROM {} GROUP BY {} HAVING {}", k.sql, t0.name, k.sql, p.sql);
+            let plan = format!("(proj (list {} rowcount) (filter {} (hashagg (list {}) (list rowcount) {scan0})))", k.plan, p.plan, k.plan);
+            return Query { shape, sql: sql.clone(), lite: sql, logical: plan, ordered: false, limit: None, scalar_sub: false, order_keys: None };
+        }
+    }
+    let k = r.range(1, 3) as usize;
+    let picked: Vec<Col> = (0..k).map(|_| r.pick(&out_cols).clone()).collect();
+    let names: Vec<String> = picked.iter().enumerate().map(|(i, c)| format!("{} AS o{i}", c.sql)).collect();
+    let refs: Vec<String> = picked.iter().map(|c| c.plan.clone()).collect();
+    let sql = format!("SELECT {} FROM {from_sql}", names.join(", "));
+    let plan = format!("(proj {} {from_plan})", list(&refs));
+    Query { shape, sql: sql.clone(), lite: sql, logical: plan, ordered: false, limit: None, scalar_sub: false, order_keys: None }
+}
+
 fn scan_plan(t: usize, ncols: usize) -> String {
     let cols: Vec<String> = (0..ncols).map(|c| format!("${t}.{c}")).collect();
     format!("(scan ${t} (list {}) true)", cols.join(" "))
@@ -1008,10 +1276,15 @@ fn gen(n: usize, out: &str) {
         // 16 % of the triples: clause combinations on one select (DISTINCT with GROUP BY, HAVING on an
         // unselected key, GROUP BY expressions, DISTINCT + ORDER BY + LIMIT, repeated items)
         let force_mix = !force_scalar && !force_orderpad && r.chance(16, 100);
+        // 14 % of the triples: three-valued logic where a condition is read (nullable BOOLEAN bare / under NOT,
+        // [NOT] IN (list), NOT (p AND q), NOT (p OR q) in WHERE / ON / EXISTS / HAVING)
+        let force_tvl = !force_scalar && !force_orderpad && !force_mix && r.chance(14, 100);
         let q = if force_orderpad {
             gen_orderpad_query(&mut r, &t0, &t1)
         } else if force_mix {
             gen_clausemix_query(&mut r, &t0, &t1)
+        } else if force_tvl {
+            gen_tvl_query(&mut r, &t0, &t1)
         } else {
             gen_query(&mut r, &t0, &t1, force_scalar)
         };
